@@ -124,7 +124,8 @@ pub fn builtin<Vis: Visitor>(v: &mut Vis) {
     v.visit::<HashMap<String, Vec<Option<(u8, [u8; 2])>>>>();
     v.visit::<(Vec<u8>, [u8; 3], Bytes, Vec<u16>)>();
     v.visit::<Result<Vec<(String, Duration)>, BTreeSet<char>>>();
-    v.visit::<(DeduplicatedString, Vec<DeduplicatedString>, String, DeduplicatedString)>();
+    v.visit::<(DeduplicatedString, Vec<crate::v::DStr>, String, DeduplicatedString)>();
+    v.visit::<std::collections::BTreeMap<crate::v::DStr, Vec<crate::v::DStr>>>();
     v.visit::<Vec<(Weekday, Month, FixedOffset)>>();
     v.visit::<(f32, f64, Vec<f64>)>();
     v.visit::<Option<(Uuid, Duration, char)>>();
